@@ -392,7 +392,8 @@ Step(s, e) ==
               ELSE {}
        \* ---- C11
        c11 == Tag("C11.region", \A i \in 1..Len(e.w) : SegOk(s, e.w[i], post, Dp))
-              \cup Tag("C11.beyond", ~Has(e, "beyond"))
+              \cup Tag("C11.beyond", ~Has(e, "beyond") \/ \A i \in 1..Len(e.beyond) : e.beyond[i].kind # "write")
+              \cup Tag("C20.beyond", ~Has(e, "beyond"))
               \cup Tag("C11.tail", Get(e, "tail", TRUE))
        \* ---- C12
        changedNow == rawChanged /\ e.op \notin {"mount"} /\ Structural(s.raw, s.D, post, Dp)
